@@ -52,7 +52,7 @@ func cmdSelftest(args []string) int {
 			t0 := time.Now()
 			for k, gmp := range []string{"1", "4", "16", "16", "7"} {
 				env := append(append([]string{}, bt.Env...), "GOMAXPROCS="+gmp)
-				po := runProc(bin, env, 20*time.Minute, "-prop", prop, "-seed", strconv.FormatUint(bseed, 10), "-from", "0", "-to", strconv.Itoa(n), "-tier", "quick", "-cfg", cfgString(bt.Cfg), "-hashes")
+				po := runProc(bin, env, 20*time.Minute, "-prop", bt.wl(prop), "-seed", strconv.FormatUint(bseed, 10), "-from", "0", "-to", strconv.Itoa(n), "-tier", "quick", "-cfg", cfgString(bt.Cfg), "-hashes")
 				var sb strings.Builder
 				cnt := 0
 				for _, l := range po.lines {
